@@ -30,13 +30,15 @@
 (* format's invariant gives, symoffset = table length, or as GNU ld writes   *)
 (* it, symoffset = 1); a PT_LOAD layout (one segment; two segments with      *)
 (* different address - offset deltas; p_filesz < p_memsz; both; addresses    *)
-(* needing all bits of the class).  Finish places everything and encodes the *)
-(* SAME object twice: WithSections (.dynsym, string table, hash sections,    *)
+(* needing all bits of the class).  Build (hashed part chosen, symbol and     *)
+(* hash tables serialised), PlaceTables (file offsets), Addresses (virtual    *)
+(* addresses under the layout) and Encode finish the object, which is then    *)
+(* written as two images of the SAME object: WithSections (.dynsym, string table, hash sections,    *)
 (* .dynamic linked to the string table; variant "match": PT_DYNAMIC covers   *)
 (* .dynamic; "matchdecoy": likewise, but the real string table is not called *)
 (* .dynstr and a decoy section of that name exists (the standard designates  *)
 (* tables by link and address, never by name);                               *)
-(* variant "split": PT_DYNAMIC covers a second copy of the array,  *)
+(* variant "split": PT_DYNAMIC covers a second copy of the array,            *)
 (* so .dynamic's sh_offset differs from p_offset, the real string table is   *)
 (* not called .dynstr and a decoy section called .dynstr exists) and         *)
 (* Stripped (e_shoff = e_shnum = e_shstrndx = 0, program headers only).      *)
@@ -53,8 +55,11 @@
 (* TagsUpToAndInclNull, ViewsAgree (both reader views deliver exactly the    *)
 (* declarative view computed from the abstract object: tags, strings,        *)
 (* symbols), CountExact, PtrInsideSegment, StrtabAgree, ScanBounded /        *)
-(* NoFault / ScanProgress (termination), SameData (the two encodings differ  *)
-(* in the ELF header and the section header table only), ChunksOK.           *)
+(* NoFault / ScanProgress (termination), RunAgrees (the action-level scan     *)
+(* stops in the state DynScan!Scan - the closed form used for trace           *)
+(* validation - gives), SameData (the two encodings differ in the ELF header  *)
+(* and the section header table only), ChunksOK, PlacementOK (the writer's    *)
+(* offsets are the ones Elf.tla's layout gives the sections).                 *)
 (*                                                                         *)
 (* Not asserted (deliberately outside the property or not fixed by it):      *)
 (*  - the symbol count when no hash table determines it (no hash tags, or a  *)
@@ -66,7 +71,17 @@
 (*  - relocation tables named by dynamic tags: Reloc.tla mode "dyn" (C08);   *)
 (*    here only the smoke expectation "no relocation tags -> no tables";     *)
 (*  - arrays that are not terminated inside PT_DYNAMIC / .dynamic, absent    *)
-(*    DT_STRTAB / DT_SYMTAB, overlapping PT_LOAD address ranges (ill-formed).*)
+(*    DT_STRTAB / DT_SYMTAB, overlapping PT_LOAD address ranges (ill-formed);*)
+(*  - how a string that is not UTF-8 is represented (the driver asserts "a   *)
+(*    string in every view, the same in all views" only); what get_tag(n)    *)
+(*    answers for n beyond the terminator.                                   *)
+(* Deviations of the unchanged tree this check found (fixes/C09-*.patch):    *)
+(*  - num_symbols:gnu-empty-ld+sysv - GNU ld's empty GNU table (symoffset 1, *)
+(*    no populated bucket) is trusted for the count (answer 1) although the   *)
+(*    format gives only a lower bound there and DT_HASH holds the count;      *)
+(*  - strings.decode:non-utf8 - the string table reached through DT_STRTAB    *)
+(*    decodes strictly (UnicodeDecodeError while listing the tags) where the  *)
+(*    section's table decodes with replacement.                               *)
 (***************************************************************************)
 EXTENDS Elf, HashWalk, DynScan, Json, CSV, IOUtils
 
